@@ -97,6 +97,10 @@ def SigBinds (E : Env T) : Prop :=
 def SigUnique (E : Env T) : Prop :=
   ∀ pk m s s', E.sigOk pk m s = true → E.sigOk pk m s' = true → s = s'
 
+/-- the same for the post-quantum scheme -/
+def PqBinds (E : Env T) : Prop :=
+  ∀ pk m pk' m' s, E.pqOk pk m s = true → E.pqOk pk' m' s = true → pk = pk' ∧ m = m'
+
 def MsigAddrInj (E : Env T) : Prop :=
   ∀ v t k v' t' k', E.msigAddr v t k = E.msigAddr v' t' k' → v = v' ∧ t = t' ∧ k = k'
 
